@@ -120,6 +120,8 @@ def evaluate(pid, res, known, ledger, repo_root, tier):
             errors.append((r['label'], 'unit generated zero obligations'))
         if canaries and all(o['result'] == 'proved' for o in canaries):
             errors.append((r['label'], 'VACUOUS: the canary `false` was proved on every exit path (contradictory preconditions?)'))
+        base = (ledger or {}).get(r['label'])
+        changed = base is not None and base.get('hash') != r.get('fn_hash')
         for o in real:
             key = obligation_key(r, o)
             seen_keys.add(key)
@@ -137,14 +139,18 @@ def evaluate(pid, res, known, ledger, repo_root, tier):
                 continue
             if o['result'] == 'failed':
                 failed.append((r, o, key))
+            elif changed and base is not None and o['name'] in base.get('proved', []):
+                # discharged on the unchanged tree, source of the function changed, no longer discharged
+                failed.append((r, o, key))
             else:
                 undecided.append((key, o['detail'] or o['result']))
     # obligations of the committed baseline ledger that are no longer generated
     missing = []
     if ledger is not None and not any(r['status'] != 'ok' for r in res):
-        for k in ledger:
-            if k not in seen_keys:
-                missing.append(k)
+        for label, ent in ledger.items():
+            for nm in ent.get('proved', []):
+                if label + ' :: ' + nm not in seen_keys:
+                    missing.append(label + ' :: ' + nm)
     code = 0
     printed = set()
     for (f, key, o) in known_hits:
@@ -249,17 +255,20 @@ def do_ledger(repo_root, jobs):
         sel = select_units(specs, units, pid)
         if not any(u[0] == 'contract' for u in sel):
             continue
-        keys = []
+        ent = {}
         for u in sel:
             r = by_label[R.unit_label(u)]
+            keys = []
+            ent[r['label']] = {'hash': r.get('fn_hash'), 'proved': keys}
             for o in r['obligations']:
                 # only obligations named from the sidecar text (stable under renaming of locals in the code)
                 if o['kind'] in ('ensures', 'invariant', 'raises-iff', 'hint', 'variant', 'frame') and o['result'] == 'proved' \
                         and 'raises-only-when' not in o['name']:
-                    keys.append(obligation_key(r, o))
-        ledger[pid] = sorted(set(keys))
+                    if o['name'] not in keys:
+                        keys.append(o['name'])
+        ledger[pid] = ent
     json.dump(ledger, open(os.path.join(VERIF, 'ledger.json'), 'w'), indent=0)
-    print('ledger written:', {k: len(v) for k, v in ledger.items()})
+    print('ledger written:', {k: sum(len(e['proved']) for e in v.values()) for k, v in ledger.items()})
     return 0
 
 
